@@ -10,6 +10,8 @@ use crate::typemodel::{self, Ctx};
 use serde_json::json;
 
 const LEAVES: [&str; 17] = ["bool", "char", "String", "&str", "i8", "i16", "i32", "u8", "u16", "u32", "I54", "U53", "f32", "f64", "()", "User", "T"];
+/// "" = as the family always wrote it (bare pointer name; std::vec / std::option for the two containers)
+const PTR_PATHS: [&str; 6] = ["", "std::sync", "sync", "::alloc::rc", "parking_lot", "crate::shims"];
 const PTRS: [&str; 11] = ["Box", "Weak", "Arc", "Rc", "Cow", "ArcWeak", "RcWeak", "Cell", "Mutex", "RefCell", "RwLock"];
 
 #[derive(Clone, Copy, Debug, PartialEq, Eq)]
@@ -114,6 +116,13 @@ pub fn cfg_of(c: &Case) -> Cfg {
             cfg.type_mappings.push(("[String]".into(), "Names".into()));
             cfg.type_mappings.push(("Option<i16>".into(), "MaybeShort".into()));
             cfg.type_mappings.push(("i8".into(), "Tiny".into()));
+        }
+        // … and by instances of maps, spelled the way typeshare prints them (no space after the comma)
+        4 => {
+            cfg.type_mappings.push(("HashMap<String,u32>".into(), "Counts".into()));
+            cfg.type_mappings.push(("HashMap<String,String>".into(), "StringMap".into()));
+            cfg.type_mappings.push(("HashMap<u32,Vec<u8>>".into(), "Blobs".into()));
+            cfg.type_mappings.push(("HashMap<String,User>".into(), "UsersByName".into()));
         }
         _ => {}
     }
@@ -424,12 +433,15 @@ pub fn run(args: &[String]) -> i32 {
                     1 => Ty::Vec(Box::new(lf)),
                     _ => Ty::Option(Box::new(lf)),
                 };
+                // how the name is qualified: typeshare never resolves paths, the last segment decides
+                let q = if k <= PTRS.len() + 1 { ch.choose("qualification", PTR_PATHS.len()) } else { 0 };
+                let qual = |t: Ty| if PTR_PATHS[q].is_empty() { t } else { Ty::Path(PTR_PATHS[q], Box::new(t)) };
                 let ty = if k < PTRS.len() {
-                    Ty::Ptr(PTRS[k], Box::new(inner))
+                    qual(Ty::Ptr(PTRS[k], Box::new(inner)))
                 } else if k == PTRS.len() {
-                    Ty::Path("std::vec", Box::new(Ty::Vec(Box::new(inner))))
+                    if q == 0 { Ty::Path("std::vec", Box::new(Ty::Vec(Box::new(inner)))) } else { qual(Ty::Vec(Box::new(inner))) }
                 } else if k == PTRS.len() + 1 {
-                    Ty::Path("std::option", Box::new(Ty::Option(Box::new(inner))))
+                    if q == 0 { Ty::Path("std::option", Box::new(Ty::Option(Box::new(inner)))) } else { qual(Ty::Option(Box::new(inner))) }
                 } else {
                     Ty::Vec(Box::new(Ty::Path("crate::m", Box::new(Ty::user("User")))))
                 };
@@ -442,7 +454,7 @@ pub fn run(args: &[String]) -> i32 {
             report::threads(),
             u64::MAX,
         );
-        merge(&mut rep, "pointers_and_paths", accs, &stats, json!({"smart_pointers": PTRS, "path_forms": ["std::vec::Vec<_>", "std::option::Option<_>", "crate::m::User"], "inner": ["leaf", "Vec<leaf>", "Option<leaf>"], "wrapped_in_vec": [false, true]}));
+        merge(&mut rep, "pointers_and_paths", accs, &stats, json!({"smart_pointers": PTRS, "path_forms": ["std::vec::Vec<_>", "std::option::Option<_>", "crate::m::User"], "qualifications_of_pointer_and_container_names": PTR_PATHS, "inner": ["leaf", "Vec<leaf>", "Option<leaf>"], "wrapped_in_vec": [false, true]}));
     }
     // 3. maps and user generics
     {
@@ -466,7 +478,11 @@ pub fn run(args: &[String]) -> i32 {
                     3 => Ty::Generic("G".into(), vec![a, key]),
                     _ => Ty::Option(Box::new(Ty::Generic("G".into(), vec![key, a]))),
                 };
-                let c = gen_tail(ch, ty, "maps-and-generics", &[0, 1, 2]);
+                let c = gen_tail(ch, ty, "maps-and-generics", &[0, 1, 2, 4]);
+                if c.mapping == 4 && !matches!(c.lang, Lang::TypeScript | Lang::Go | Lang::Python) {
+                    acc.out_of_scope += 1; // container mappings are only supported by TS/Go/Python
+                    return;
+                }
                 check_case(&c, &ch.choices(), acc);
             },
             Mode::Product,
@@ -474,7 +490,7 @@ pub fn run(args: &[String]) -> i32 {
             report::threads(),
             u64::MAX,
         );
-        merge(&mut rep, "maps_and_generics", accs, &stats, json!({"shapes": ["HashMap<K,V>", "Vec<HashMap<K,V>>", "G1<A>", "G<A,K>", "Option<G<K,A>>"], "keys": ["String", "u32", "User"], "argument_chain_constructors": vdepth, "mappings": ["none", "User->Mapped", "G->MappedG"]}));
+        merge(&mut rep, "maps_and_generics", accs, &stats, json!({"shapes": ["HashMap<K,V>", "Vec<HashMap<K,V>>", "G1<A>", "G<A,K>", "Option<G<K,A>>"], "keys": ["String", "u32", "User"], "argument_chain_constructors": vdepth, "mappings": ["none", "User->Mapped", "G->MappedG", "map instances: HashMap<String,u32>, HashMap<String,String>, HashMap<u32,Vec<u8>>, HashMap<String,User> (TS/Go/Python)"]}));
     }
     // 4. const type (leaf types; backends with const support)
     {
